@@ -142,6 +142,8 @@ def shard_inputs(m, items):
                     outs.add(parse_case(m, gtext, model, text, route, pi, name))
             if 'ok' in outs:
                 m.add('nontrivial')
+            if 'ok' in outs and len(text) >= 2:
+                m.sample({'grammar': gtext, 'input': text, 'outcomes': sorted(outs)}, limit=2)
             if len(outs - {'exc', 'hang'}) > 1:
                 m.violation('accept-differs-between-inputs-or-parseinfo', grammar=gtext, input=text, outcomes=sorted(outs))
 
@@ -188,6 +190,7 @@ def shard_grammars(m, items):
                 impl.clear_compile_cache()
                 tatsu.compile(text)
             m.add('nontrivial')    # still a valid grammar
+            m.sample({'edited_grammar_still_valid': text}, limit=1)
         except FailedParse as e:
             signal.setitimer(signal.ITIMER_REAL, 0)
             check_failure(m, '<grammar text>', text, e, 'compile')
